@@ -8,6 +8,7 @@ import (
 	"lunar/engine/utils"
 	sharedConfig "lunar/shared-model/config"
 	"lunar/toolkit-core/clock"
+	"math"
 	"strconv"
 	"time"
 
@@ -153,7 +154,8 @@ func normalizeRetryAfter(
 		// Compare with the clock at full precision: truncating it to whole
 		// seconds kept the response for up to a second past the
 		// provider's retry-after time.
-		retryAt := time.Unix(0, int64(retryAfterNum*float64(time.Second)))
+		seconds, fraction := math.Modf(retryAfterNum)
+		retryAt := time.Unix(int64(seconds), int64(fraction*float64(time.Second)))
 		return retryAt.Sub(clock.Now()).Seconds(), nil
 
 	case sharedConfig.RetryAfterRelativeSeconds:
